@@ -2034,14 +2034,24 @@ class Verifier(Exec):
         elif op == 'RunDefers':
             # deferred calls recorded so far run in reverse order (a defer inside a branch is run on every path
             # that reaches the function exit: an over-approximation, listed in the notes)
-            for dins in reversed(self.defers):
+            for di_, dins in reversed(list(enumerate(self.defers))):
+                flag = st.ghost.get('defer:%d' % di_)
+                if flag is None or (isinstance(flag, T) and flag.is_bool() and not flag.val):
+                    continue          # this exit path does not pass the defer statement
+                if not (isinstance(flag, T) and flag.is_bool() and flag.val):
+                    raise Unsupported('a defer statement that only some of the merged paths passed')
                 self.cur_detail = 'defer'
                 self.do_call(st, dins)
             return
         elif op == 'Defer':
-            self.defers.append({'op': 'Call', 'call': ins['call'], 'type': self.void_tid(), 'line': ins.get('line'), 'name': ''})
-            if len(self.defers) > 1 or blk['index'] != 0:
-                self.ctx.notes.append('%s: deferred calls are run on every exit path' % short_fn(self.fname))
+            key_ = (ins.get('line'), ins.get('col'), blk['index'])
+            ids_ = [i_ for i_, d_ in enumerate(self.defers) if d_.get('key') == key_]
+            if ids_:
+                di_ = ids_[0]
+            else:
+                di_ = len(self.defers)
+                self.defers.append({'op': 'Call', 'call': ins['call'], 'type': self.void_tid(), 'line': ins.get('line'), 'name': '', 'key': key_})
+            st.ghost['defer:%d' % di_] = TRUE
             return
         elif op == 'Go' or op == 'Select' or op == 'Send' or op == 'MakeChan':
             r = self.do_effect(st, ins)
@@ -2292,7 +2302,7 @@ class Verifier(Exec):
         for _, s in ins_:
             gk |= set(s.ghost)
         for k in gk:
-            vals = [s.ghost.get(k) for _, s in ins_]
+            vals = [s.ghost.get(k, FALSE if k.startswith('defer:') else None) for _, s in ins_]
             if all(v is not None for v in vals):
                 st.ghost[k] = self.merge_values(conds, vals, 'g:' + k)
         # phis
